@@ -112,7 +112,7 @@ Proof.
   { unfold n, items. rewrite app_length, map_length. cbn [length]. rewrite map_length. reflexivity. }
   pose proof (ra_tok _ _ _ _ _ _ _ HA) as Htok. pose proof (ra_le _ _ _ _ _ _ _ HA) as Hle.
   destruct (splice_prep_ok c v u xs s e i j known n Hwf HA Hf Hroom)
-    as (v2 & u2 & Ep & Hl2 & Hc2 & Hus2 & Hst2 & Hpre2 & Htl2 & Hbk2 & Hn2 & Hf2 & He2).
+    as (v2 & u2 & Ep & Hl2 & Hc2 & Hus2 & Hst2 & Hpre2 & Htl2 & Hbk2 & Hn2 & Hf2 & He2 & _).
   destruct (splice_fill_wrong c k ty Hty good n tb rest s 0 v2 u2 Hst2) as (m' & u' & Ef & Hlm & Hpm & Hf' & Hn' & He'); auto.
   { unfold new_len in Hc2. lia. }
   { lia. }
